@@ -400,8 +400,59 @@ def prove_relies_more(src_root, ex: Explorer):
             ob.name = 'C05.relies.tracking.' + ob.name[4:]
 
 
+def prove_wakeups_and_users(src_root, ex: Explorer):
+    """(a) a status notification of ANY kind requests a management cycle (a user coming back online makes his queued uploads eligible - the
+    freed slot is waiting for exactly that); (b) the user object of an unknown name carries the privileged mark of the server's list (the
+    ranking reads it); (c) one run of the management job makes ONE scheduling pass - requests that arrive while it runs wait for the
+    next run (a second pass in the same activation would count slots while the picks of the first are still QUEUED)."""
+    def status(ctx: Ctx):
+        it = mk(src_root, ctx)
+        st_cls = cls(it, UMODEL, 'UserStatus')
+        m = st_cls.enum_members[ctx.choose(len(st_cls.enum_members), 'status')]
+        cycles = []
+        it.hooks[f'{MGR}:TransferManager.request_management_cycle'] = lambda it2, f, a, k: cycles.append(a[1])
+        it.hooks[f'{MGR}:TransferManager._reset_remotely_queued_flags'] = lambda it2, f, a, k: None
+        mgr = new(it, MGR, 'TransferManager', _transfers=[])
+        run(it, it.getattr(mgr, '_on_get_user_status'), Stub('GetUserStatus.Response', username='bob', status=m.value, privileged=False), Opaque('conn'))
+        ctx.prove(f'C05.cycle-on-status[{m.name}]', len(cycles) == 1, f'status {m.name}: {len(cycles)} cycle requests')
+    ex.run(status, 'cycle-on-status')
+
+    def user_object(ctx: Ctx):
+        it = mk(src_root, ctx)
+        listed = ctx.choose(2, 'in-privileged-list') == 1
+        um = new(it, 'user.manager', 'UserManager', _users={}, _privileged_users={'bob'} if listed else set())
+        u = it.call(it.getattr(um, 'get_user_object'), ['bob'], {})
+        ctx.prove(f'C05.user-object.privileged[listed={listed}]', isinstance(u, Obj) and it.truth(u.attrs.get('privileged')) is listed,
+                  f'a new user object for a name that is {"" if listed else "not "}in the privileged list has privileged={u.attrs.get("privileged") if isinstance(u, Obj) else u!r}')
+    ex.run(user_object, 'user-object')
+
+    def one_pass(ctx: Ctx):
+        it = mk(src_root, ctx)
+        flag_cls = cls(it, MGR, '_RequestFlag')
+        members = {m.name: m for m in flag_cls.enum_members}
+        passes = []
+        it.natives['time.monotonic'] = Native('monotonic', lambda it2, a, k: 1.0)
+        mgr = new(it, MGR, 'TransferManager', _management_flags=members['TRANSFER_CHANGE'],
+                  _management_queue=Stub('queue', get=Recorder('get', is_async=True)))
+        it.hooks[f'{MGR}:TransferManager.manage_shares_changed'] = lambda it2, f, a, k: A.SimpleAwaitable(it2.aio, 'shares', lambda it3: None)
+
+        def tracking(it2, f, a, k):
+            def body(it3):
+                mgr.attrs['_management_flags'] = members['TRANSFER_CHANGE']        # a request arrives while the job runs
+            return A.SimpleAwaitable(it2.aio, 'tracking', body)
+        it.hooks[f'{MGR}:TransferManager.manage_user_tracking'] = tracking
+        it.hooks[f'{MGR}:TransferManager.manage_transfers'] = lambda it2, f, a, k: passes.append(1)
+        it.MAX_UNROLL = 6
+        try:
+            run(it, it.getattr(mgr, '_management_job'))
+        except Unsupported:
+            passes.append('loop')
+        ctx.prove('C05.management-job.one-pass', passes == [1], f'scheduling passes in one run of the job: {passes}')
+    ex.run(one_pass, 'one-pass')
+
+
 def items(src_root, tier):
-    return [('relies-more', None), ('step', None), ('rank', None), ('slots', None), ('takes-slot', None), ('slot-released', None), ('cycle-on-change', None)] + [('bounded', ('selection', n)) for n in (1, 2)] + [('bounded', ('manage', n)) for n in (1, 2)]
+    return [('wakeups', None), ('relies-more', None), ('step', None), ('rank', None), ('slots', None), ('takes-slot', None), ('slot-released', None), ('cycle-on-change', None)] + [('bounded', ('selection', n)) for n in (1, 2)] + [('bounded', ('manage', n)) for n in (1, 2)]
 
 
 def run_item(src_root, item, tier):
@@ -423,6 +474,8 @@ def run_item(src_root, item, tier):
             prove_cycle_on_change(src_root, ex)
         elif kind == 'relies-more':
             prove_relies_more(src_root, ex)
+        elif kind == 'wakeups':
+            prove_wakeups_and_users(src_root, ex)
         elif kind == 'bounded':
             prove_bounded(src_root, ex, res, arg[0], arg[1])
     except Unsupported as e:
